@@ -21,3 +21,19 @@ package storage
 //@   trusted
 //@   modifies Store
 //@   ensures Store == upd(old(Store), keyOf(bytes(key)), None)
+
+// Transaction layer over block layer (C15). `Block` is the ghost view of the backend overlay.
+//@ func (*CacheDB).Reset
+//@   trusted   -- MemDB.Reset drops every buffered write: the view falls back to the backend
+//@   modifies Store
+//@   ensures Store == Block
+
+//@ func (*CacheDB).Commit
+//@   trusted   -- replays every buffered write (put, or delete for an empty value) into the backend
+//@   modifies Block
+//@   ensures Block == Store
+
+//@ func NewCacheDB
+//@   trusted
+//@   ensures result != nil
+//@   fresh result
